@@ -386,6 +386,10 @@ class Expander:
         if out is None:
             return None
         cfg = self.flow.cfg
+        # a mutation may follow the use only after the accumulator was re-initialised (accumulator local to one iteration
+        # of an enclosing loop): reachability from the use is taken without passing the initialising assignment
+        inits = [d for d in self.flow.defs_of(name) if d.kind == 'assign' and d.node is not None]
+        after = cfg._reachable_from(at, avoid={d.node.id for d in inits}) if len(inits) == 1 else None
         for n in ast.walk(self.func.node):
             mut = None
             if isinstance(n, ast.Call) and isinstance(n.func, ast.Attribute) and isinstance(n.func.value, ast.Name) and \
@@ -395,7 +399,7 @@ class Expander:
                 mut = n
             if mut is not None:
                 mn = cfg.node_containing(mut)
-                if mn is None or mn is at or cfg.can_reach(at, mn):
+                if mn is None or mn is at or (mn.id in after if after is not None else cfg.can_reach(at, mn)):
                     return None
         cs = [c for c in facts.collects(self.func) if c.kind == 'loop' and c.acc == name]
         if cs:
@@ -459,9 +463,14 @@ class Expander:
                             m.add(t.value.id)
             # a local that is only ever an alias of an attribute path / another name (x = node.children) denotes the same
             # object as that path: expanding it is exact, the mutation happens to the aliased object
+            params = set(self.func.params)
             for name in list(m):
                 ds = self.flow.defs_of(name)
                 if ds and all(d.kind == 'assign' and isinstance(d.value, ast.Attribute) and attr_path(d.value) is not None for d in ds):
+                    m.discard(name)
+                # ... or of a parameter / self that is never rebound (`lst = self`)
+                elif len(ds) == 1 and ds[0].kind == 'assign' and isinstance(ds[0].value, ast.Name) and ds[0].value.id in params and \
+                        all(x.kind == 'param' for x in self.flow.defs_of(ds[0].value.id)):
                     m.discard(name)
             self._mut_cache = m
         return m
